@@ -71,6 +71,18 @@ CLAIMED["C06"] = dict(
          "affinity_pairs (tolerance 1e-9 relative for those, none for the [0,1] range). Floats as reals (mode R).",
     technique=TECH + "; functional (pure) contracts so multi-call lemmas are decided over contracts",
 )
+CLAIMED["C04"] = dict(
+    level="proof",
+    text="The construction contracts of ClipEvaluation, Match, AnnotationProject, Clip, PredictedTag, SoundEventPrediction and "
+         "SequencePrediction are executed over the real validator bodies and Field bounds read from the class definitions and "
+         "proved two-sidedly equivalent to the relational spec written from the statement (same clip; match targets/sources a "
+         "duplicate-free enumeration of exactly the annotated/predicted ids; source or target present; every annotated clip has "
+         "a task; start <= end; scores in [0,1]).",
+    note="Trusted: engine, solvers, pydantic construction contract, len(set(xs)) == len(xs) iff xs duplicate-free. That dict / "
+         "JSON validation and AOEF loading go through the same construction is the pydantic assumption, checked by the bounded "
+         "stand-in schema_paths (constructor, dict, JSON) and by C01's loaders.",
+    technique=TECH + "; symbolic sets as element lists; filter comprehensions with monotone source-index functions",
+)
 ALL = [f"C{n:02d}" for n in range(1, 21)]
 NOT_APPLICABLE = {p: "check not built yet in this session (work in progress; see DESIGN.md section 12 build order)"
                   for p in ALL if p not in CLAIMED}
